@@ -86,7 +86,7 @@ type c13Res struct {
 // Scenario A: stream quota. MCS=limit, `pre` streams already open; `nNew`
 // concurrent NewStream calls race `nClose` application closes (and optionally
 // the server raising MAX_CONCURRENT_STREAMS).
-func c13QuotaScenario(name string, limit uint32, pre, nNew, nClose int, raiseTo uint32, bound int) vsched.Scenario {
+func c13QuotaScenario(name string, limit uint32, pre, nNew, nClose int, raiseTo uint32, bound int, opts ...string) vsched.Scenario {
 	return vsched.Scenario{Name: name, Bound: bound, Horizon: 20000, Body: func(x *vsched.X) {
 		w, err := c13Build(x, limit, pre)
 		if err != nil {
@@ -130,6 +130,15 @@ func c13QuotaScenario(name string, limit uint32, pre, nNew, nClose int, raiseTo 
 				closed++
 				mu.Unlock()
 			})
+		}
+		for _, o := range opts {
+			if o == "cancel0" {
+				// the application gives up on the first waiting call while quota is being freed
+				x.Go("cancel0", func() {
+					vsched.Yield()
+					ctxs[0]()
+				})
+			}
 		}
 		curLimit := limit
 		if raiseTo > 0 {
@@ -297,11 +306,87 @@ func c14GoAwayScenario(name string, pre, nNew int, lastID uint32, bound int) vsc
 	}}
 }
 
+// Scenario C: a NewStream parked on stream quota is cancelled while the quota
+// is being freed. Whatever the interleaving, the call returns, and the quota
+// is not leaked: if the cancelled call did not open a stream, a later
+// NewStream must be admitted at once.
+func c13CancelScenario(name string, bound int) vsched.Scenario {
+	return vsched.Scenario{Name: name, Bound: bound, Horizon: 20000, Body: func(x *vsched.X) {
+		w, err := c13Build(x, 1, 1)
+		if err != nil {
+			x.Fail("C13", "setup", "set-up failed: %v", err)
+			return
+		}
+		var mu sync.Mutex
+		r := &c13Res{}
+		ctx, cancel := context.WithCancel(context.Background())
+		x.Go("new0", func() {
+			s, err := w.tr.NewStream(ctx, &CallHdr{Host: "x", Method: "/s/m"}, nil)
+			mu.Lock()
+			r.returned, r.s, r.err = true, s, err
+			mu.Unlock()
+		})
+		x.Go("close0", func() {
+			vsched.Yield()
+			w.first[0].Close(errors.New("app done"))
+		})
+		x.Go("cancel", func() {
+			vsched.Yield()
+			cancel()
+		})
+		x.Final(func(x *vsched.X) {
+			for _, p := range x.Panics {
+				x.Fail("C13", "panic", "%s", p)
+			}
+			mu.Lock()
+			ret, opened := r.returned, r.returned && r.err == nil
+			mu.Unlock()
+			if !ret {
+				x.Fail("C22", "cancelled-newstream-hangs", "NewStream has not returned although its context was cancelled and quota was freed (%s)", x.Stuck)
+				x.Fail("C17", "cancelled-newstream-hangs", "NewStream has not returned although its context was cancelled and quota was freed (%s)", x.Stuck)
+				return
+			}
+			if opened {
+				// the stream holds the only slot; release it the way the application would
+				r.s.Close(errors.New("app done"))
+				synctest.Wait()
+			}
+			// the slot must be free now: a fresh call is admitted at once
+			var r2 c13Res
+			go func() {
+				s, err := w.tr.NewStream(context.Background(), &CallHdr{Host: "x", Method: "/s/m"}, nil)
+				mu.Lock()
+				r2.returned, r2.s, r2.err = true, s, err
+				mu.Unlock()
+			}()
+			synctest.Wait()
+			mu.Lock()
+			ok := r2.returned && r2.err == nil
+			mu.Unlock()
+			if !ok {
+				x.Fail("C13", "stream-quota-leaked", "after a cancelled NewStream (opened=%v) and the close of every open stream, a new NewStream is not admitted (limit 1, 0 open): the slot was leaked (%s)", opened, w.peer.LogString())
+				x.Fail("C17", "stream-quota-leaked", "after a cancelled NewStream (opened=%v) and the close of every open stream, a new NewStream is not admitted", opened)
+			}
+			maxOpen, _ := c13MaxOpenOnWire(w.peer.Log())
+			if maxOpen > 1 {
+				x.Fail("C13", "over-limit", "%d streams open on the wire at once with MAX_CONCURRENT_STREAMS=1 (%s)", maxOpen, w.peer.LogString())
+			}
+			x.Outcome(fmt.Sprintf("opened=%v", opened))
+		})
+		x.Cleanup(func() {
+			cancel()
+			w.tr.Close(errors.New("verif: done"))
+			w.cancel()
+			w.peer.Close()
+		})
+	}}
+}
+
 func TestVerif_C13_NewStreamSched(t *testing.T) {
-	r := vk.Start(t, "c13_newstream_sched", "exploration", "C13", "C17", "C14")
+	r := vk.Start(t, "c13_newstream_sched", "exploration", "C13", "C17", "C14", "C22")
 	defer r.Finish()
-	rule := "every schedule with at most B preemptions (quick 1, thorough 2) of a real, fully instrumented http2Client (reader, loopy and application goroutines are all scheduled threads; connection set up un-scheduled against a raw server peer over an in-memory pipe): 2-3 concurrent NewStream calls racing application stream closes and a server-side MAX_CONCURRENT_STREAMS raise with limit 1-2 (C13/C17: never more streams on the wire than the limit, no NewStream parked while quota is free at quiescence), and 2 NewStream calls racing GOAWAY(last-stream-id) (C14: every stream above the id ends unprocessed, none at or below it is failed, no call hangs); non-trivial = executions deviating from the default schedule"
-	for _, p := range []string{"C13", "C17", "C14"} {
+	rule := "every schedule with at most B preemptions (quick 1, thorough 2) of a real, fully instrumented http2Client (reader, loopy and application goroutines are all scheduled threads; connection set up un-scheduled against a raw server peer over an in-memory pipe): 2-3 concurrent NewStream calls racing application stream closes and a server-side MAX_CONCURRENT_STREAMS raise with limit 1-2 (C13/C17: never more streams on the wire than the limit, no NewStream parked while quota is free at quiescence), and 2 NewStream calls racing GOAWAY(last-stream-id) (C14: every stream above the id ends unprocessed, none at or below it is failed, no call hangs), and a NewStream parked on stream quota whose context is cancelled while the quota is being freed (C22/C17: the call returns; C13: the slot is not leaked - a fresh call is admitted at once); non-trivial = executions deviating from the default schedule"
+	for _, p := range []string{"C13", "C17", "C14", "C22"} {
 		r.Rule(p, rule)
 		r.Assume(p, "scheduling points at sync/atomic/channel operations of internal/transport suffice; x/net/http2 framing and the in-memory pipe are not instrumented")
 	}
@@ -313,11 +398,13 @@ func TestVerif_C13_NewStreamSched(t *testing.T) {
 		c13QuotaScenario("quota/mcs1/pre1/new2/raise2", 1, 1, 2, 0, 2, b),
 		c13QuotaScenario("quota/mcs1/pre1/new2/close1+raise2", 1, 1, 2, 1, 2, b),
 		c14GoAwayScenario("goaway1/pre1/new2", 1, 2, 1, b),
+		c13CancelScenario("quota/mcs1/pre1/new1/close1+cancel", 2),
+		c13QuotaScenario("quota/mcs1/pre1/new2/close1+cancel0", 1, 1, 2, 1, 0, b, "cancel0"),
 	}
 	if r.Thorough() {
 		scs = append(scs, c13QuotaScenario("quota/mcs1/pre1/new3/close1+raise2", 1, 1, 3, 1, 2, 1), c14GoAwayScenario("goaway3/pre2/new2", 2, 2, 3, b))
 	}
-	vsched.RunScenarios(t, r, []string{"C13", "C17", "C14"}, scs)
+	vsched.RunScenarios(t, r, []string{"C13", "C17", "C14", "C22"}, scs)
 	for _, p := range []string{"C13", "C17", "C14"} {
 		r.Sample(p, map[string]any{"scenario": "quota/mcs1/pre1/new2/close1", "threads": []string{"new0, new1: NewStream (park on stream quota)", "close0: application closes the pre-opened stream", "background: reader, loopy"}})
 	}
